@@ -114,6 +114,8 @@ let instance_of (c : case) : (string * int * (int * int) list * string list) opt
   match in_line c "fmt", in_line c "labels" with
   | Some [ fmt ], labels -> (
       let labels = match labels with Some l -> l | None -> [] in
+      (* a label with non-ASCII characters is written hex:<hex of its UTF-8 bytes> *)
+      let labels = L.map (fun l -> if starts_with "hex:" l then bytes_of_hex (S.sub l 4 (S.length l - 4)) else l) labels in
       match in_line c fmt with
       | Some (n :: rest) ->
           Some (fmt, int_of_string n, L.map (fun (a, b) -> (int_of_string a, int_of_string b)) (pairs_of rest), labels)
@@ -151,6 +153,7 @@ let opt_value (c : case) (key : string) : string =
           | _ -> acc) "-" l
   | None -> "-"
 
+let class_is_ok (c : case) = (match in_line c "class" with Some [ k ] -> k = "ok" | _ -> false)
 let exit_of (c : case) = match out_line c "exit" with Some [ e ] -> e | _ -> "?"
 let stdout_of (c : case) = match out_line c "stdout" with Some [ h ] -> bytes_of_hex h | _ -> ""
 
@@ -300,7 +303,19 @@ let dpll_oracle (_ : nat) (f : Cnf.cnf) (a : Cnf.lit list) : Cnf.answer =
     | Some m -> Cnf.Sat (L.init nv (fun i -> Some m.(i)))
     | None -> Cnf.Unsat
 
-let model_instance (c : case) : Cli.instance option =
+(* The instance handed to the command.  When the case carries the bytes of the file, the model reads
+   them itself with the reader selected by the options (Readers.read_iccma / read_apx: this is
+   CliE2E*.iccma_input / apx_input, the end-to-end theorems' composition); otherwise (the fixed files
+   good.af / good.apx) it is rebuilt from the abstract description.  Aspartix labels are Strings:
+   lists of code points, obtained by UTF-8 decoding. *)
+let model_instance (c : case) (reader : Cli.reader option) : Cli.instance option =
+  let file = match in_line c "file" with Some [ h ] -> Some (bytes_to_model (bytes_of_hex h)) | _ -> None in
+  match file, reader with
+  | Some fb, Some Cli.RApx ->
+      (match Readers.read_apx fb with Readers.RdOk f -> Some (Cli.apx_instance f) | _ -> None)
+  | Some fb, Some Cli.RIccma23 ->
+      (match Readers.read_iccma fb with Readers.RdOk f -> Some (Cli.iccma_instance f) | _ -> None)
+  | _ ->
   match in_line c "unreadable", instance_of c with
   | Some _, _ | _, None -> None
   | None, Some (fmt, n, atts, labels) ->
@@ -310,11 +325,38 @@ let model_instance (c : case) : Cli.instance option =
         let f = L.fold_left (fun f (a, b) -> fst (Store.new_attack_by_ids f (nat_of_int a) (nat_of_int b))) f0 atts in
         Some (Cli.iccma_instance f)
       end else begin
-        let ls = L.map bytes_to_model labels in
-        let f0 = Store.fw_new_with_labels Cli.beqb ls in
-        let f = L.fold_left (fun f (a, b) -> fst (Store.new_attack Cli.beqb f (L.nth ls a) (L.nth ls b))) f0 atts in
+        let decode l = match Readers.utf8_decode (bytes_to_model l) with Some s -> s | None -> failwith "label is not UTF-8" in
+        let ls = L.map decode labels in
+        let f0 = Store.fw_new_with_labels Readers.str_eqb ls in
+        let f = L.fold_left (fun f (a, b) -> fst (Store.new_attack Readers.str_eqb f (L.nth ls a) (L.nth ls b))) f0 atts in
         Some (Cli.apx_instance f)
       end
+
+(* the witness line the tool printed, re-rendered by the model from the ids it names: tests the bytes
+   of the labels (Display of a label, UTF-8) independently of which extension the SAT solver found *)
+let model_witness (c : case) (inst : Cli.instance option) : string =
+  match inst, instance_of c, in_line c "problem" with
+  | Some i, Some (fmt, _, _, labels), Some [ ph ] when class_is_ok c && exit_of c = "0" -> (
+      match split_problem (bytes_of_hex ph) with
+      | None -> "n/a"
+      | Some (q, _) ->
+          let raw = stdout_of c in
+          let s = if opt_value c "logging" = "off" then raw else strip_log_lines raw in
+          let lines, _ = split_lines s in
+          let wline = match q, lines with
+            | "SE", [ l ] when l <> "NO" -> Some l
+            | ("DC" | "DS"), [ _; l ] -> Some l
+            | _ -> None in
+          match wline with
+          | None -> "none"
+          | Some l -> (
+              match parse_witness fmt labels l with
+              | Error _ -> "n/a"
+              | Ok ids ->
+                  let w = if fmt = "apx" then Cli.WApx else Cli.WIccma in
+                  let expected = bytes_of_model (Cli.witness_line w i.Cli.i_label (L.map nat_of_int ids)) in
+                  if expected = l ^ "\n" then "same" else "differs " ^ hex_of_bytes expected))
+  | _ -> "n/a"
 
 let predict (c : case) =
   let k = match in_line c "class" with Some [ k ] -> k | _ -> "?" in
@@ -327,7 +369,9 @@ let predict (c : case) =
         let argv = L.map (fun h -> bytes_to_model (bytes_of_hex h)) toks in
         let wrapper = (match S.split_on_char '/' c.kind with _ :: "wrapper" :: _ -> true | _ -> false) in
         let cmd = if wrapper then Cli.parse_wrapper argv else Cli.parse_main argv in
-        let inst = model_instance c in
+        let reader = match cmd with Cli.CSolve (o, _) -> Some o.Cli.o_reader | _ -> None in
+        let inst = model_instance c reader in
+        out ("modelwitness " ^ model_witness c inst);
         (* the exp encoder emits one clause per element of the product of the defender sets of an
            argument: beyond a bound the extracted model (unary nat indices) is too slow to be worth it *)
         let too_large =
